@@ -11,7 +11,7 @@
 import json
 import os
 
-from vlib import common, gen, c18lib
+from vlib import common, gen, c18lib, flowtree_run
 from vlib.common import Rng
 
 PID = "C18"
@@ -118,10 +118,14 @@ def run(ctx):
                       "line": "seq %d 1 %s" % (lid, ";".join(ops))})
     if getattr(ctx, "replay", None):
         rp = json.load(open(ctx.replay))
-        if "input" in rp:
+        if rp.get("input"):
             cases = [{"lang": int(rp["input"].split()[1]), "xmlgen": int(rp["input"].split()[2]),
                       "ops": rp["input"].split(" ", 3)[3].split(";") if len(rp["input"].split(" ", 3)) > 3 else [],
                       "exp": None, "sigs": None, "tree": None, "xmlcmp": False, "line": rp["input"]}]
+            if rp.get("xml_input"):
+                # an XML-path violation: the document is part of the replay
+                cases[0]["xml_line"] = rp["xml_input"]
+                cases[0]["ntree"] = len(rp["api"]["tree"].split(","))
             nseq = 0
     total = {"evaluations": 0, "ops": 0, "nodes_checked": 0, "xml_compared": 0, "d17_hits": 0, "merges": 0,
              "extractions": 0, "reinsertions": 0, "xml_skipped_lang": 0}
@@ -156,7 +160,24 @@ def run(ctx):
         "correspondence_disagreements": len(corr),
         "soft_disagreements": len(soft),
     })
-    for v in concrete[:5]:
+    byk = {}
+    for v in concrete:
+        byk[v.get("kind", "x")] = byk.get(v.get("kind", "x"), 0) + 1
+    ctx.coverage["oracle_failures_by_kind"] = byk
+    # one replay per kind first (the most specific oracles before the sanitizer reports), at most 6 in all
+    order = ["links", "adjacent-text", "shape", "status", "xml-path", "crash-or-sanitizer-report", "crash-or-sanitizer-report-xml"]
+    picked, seen = [], set()
+    for k in order:
+        for v in concrete:
+            if v.get("kind") == k and k not in seen:
+                picked.append(v)
+                seen.add(k)
+    for v in concrete:
+        if len(picked) >= 6:
+            break
+        if v not in picked:
+            picked.append(v)
+    for v in picked[:6]:
         ctx.violation("c-violates-oracle-" + v.get("kind", "x"), {"replay_cmd": "bin/check C18 --replay <this file>", **v})
     if not concrete:
         if proof_broken:
@@ -173,30 +194,11 @@ def run(ctx):
 
 def process(ctx, batch, harness, driver, tfile, vocab, total, kinds, nontrivial, concrete, corr, soft, samples):
     lines = [c["line"] for c in batch]
-    ca, crashes = common.run_lines(harness, lines)
+    ca, culprits = flowtree_run.run_robust(harness, lines)
     ma, mcr = common.run_lines(driver, lines, env=common.run_env({"C18_TABLES": tfile}))
-    for cr in crashes:
-        # find the sequence that crashed: re-run the shard's lines one by one
-        lo, hi = cr["range"]
-        culprit = None
-        for k in range(lo, hi):
-            if ca[k] is None:
-                a1, c1 = common.run_lines(harness, [lines[k]], shards=1)
-                if c1:
-                    culprit = (k, c1[0])
-                    break
-                ca[k] = a1[0]
-        if culprit:
-            k, c1 = culprit
-            # everything after it in the shard was not answered: re-run
-            rest = list(range(k + 1, hi))
-            if rest:
-                a2, _ = common.run_lines(harness, [lines[j] for j in rest], shards=4)
-                for j, a in zip(rest, a2):
-                    ca[j] = a
-            concrete.append({"kind": "crash-or-sanitizer-report", "input": lines[k], "rc": c1["rc"], "stderr": c1["stderr"][-2500:]})
-        else:
-            concrete.append({"kind": "crash-or-sanitizer-report", "input": cr.get("first_unanswered"), "rc": cr["rc"], "stderr": cr["stderr"][-2500:]})
+    for cu in culprits:
+        concrete.append({"kind": "crash-or-sanitizer-report", "input": cu["input"], "rc": cu["rc"], "stderr": cu["stderr"],
+                         "note": cu.get("note")})
     xml_lines, xml_case = [], []
     for c, a, m in zip(batch, ca, ma):
         total["evaluations"] += 1
@@ -268,7 +270,10 @@ def process(ctx, batch, harness, driver, tfile, vocab, total, kinds, nontrivial,
         if len(samples) < 12 and len(ops) > 4 and hash(c["line"]) % 7 == 0:
             samples.append({"input": c["line"][:600], "last_dump": parts[-1][:400] if parts else "", "W": tr.get("W", "")[:80]})
         # ---- XML path
-        if c["xmlcmp"] and c["tree"] and tr.get("W", "").startswith(("0", "1", "2", "3")) and not d17:
+        if c.get("xml_line"):
+            xml_lines.append(c["xml_line"])
+            xml_case.append((c, parts[-1].partition("#")[2], tr, bytes.fromhex(c["xml_line"].split()[2])))
+        elif c["xmlcmp"] and c["tree"] and tr.get("W", "").startswith(("0", "1", "2", "3")) and not d17:
             lang = vocab.langs[c["lang"]]
             root = c["tree"][0]
             if lang["pub"] is None and root.name.split(b"|")[-1].decode("latin-1") != lang["root"]:
@@ -286,9 +291,10 @@ def process(ctx, batch, harness, driver, tfile, vocab, total, kinds, nontrivial,
         elif d17 and c["tree"] and c["xmlcmp"]:
             pass
     if xml_lines:
-        xa, xcr = common.run_lines(harness, xml_lines)
-        for cr in xcr:
-            concrete.append({"kind": "crash-or-sanitizer-report-xml", "input": cr.get("first_unanswered"), "rc": cr["rc"], "stderr": cr["stderr"][-2500:]})
+        xa, xcu = flowtree_run.run_robust(harness, xml_lines)
+        for cu in xcu:
+            concrete.append({"kind": "crash-or-sanitizer-report-xml", "input": cu["input"], "rc": cu["rc"], "stderr": cu["stderr"],
+                             "note": cu.get("note")})
         for (c, lastdump, tr, doc), xl, a in zip(xml_case, xml_lines, xa):
             if a is None:
                 continue
@@ -308,7 +314,7 @@ def process(ctx, batch, harness, driver, tfile, vocab, total, kinds, nontrivial,
             nodes = c18lib.parse_dump(lastdump)
             roots, kids = c18lib.build_forest(nodes)
             # the tree part = the first root's sub-tree (the tree's root comes first in the traversal)
-            ntree = len(c18lib.preorder([c["tree"][0]]))
+            ntree = c["ntree"] if c.get("ntree") else len(c18lib.preorder([c["tree"][0]]))
             api_tree = ",".join(lastdump.split(",")[:ntree])
             what = None
             if api_tree != pd:
